@@ -310,8 +310,10 @@ Definition do_close (e : bool) (sid : nat) (s : st) : st :=
   let s2 := add_free (pslots (pend v) ++ rslots (recvb v) ++ sendb v) s1 in
   let s3 := if fx s then add_free (pinned v) s2 else add_leaked (pinned v) s2 in
   if half v then s3                                              (* no notification when the peer closed first *)
-  else if Z.of_nat (length (queue_to (negb e) s)) >=? qcap s then
-    deliver_close (negb e) sid s3                                (* queue full: the close travels over the socket *)
+  else if infb v || (Z.of_nat (length (queue_to (negb e) s)) >=? qcap s) then
+    (* the close travels over the socket: always once the stream is in fallback state (c91430a: it must
+       follow the data), otherwise when the queue is full *)
+    deliver_close (negb e) sid s3
   else set_queue (negb e) (queue_to (negb e) s ++ [{| q_sid := sid; q_chain := []; q_closed := true |}]) s3.
 
 Definition do_open (sid : nat) (s : st) : st :=
